@@ -511,7 +511,7 @@ func c14CaseVariant(r *Rand, s string) string {
 }
 
 func runC14(r *Run) {
-	r.Rule = "bundled data set: every spec of actionlint.PopularActions x {required only, each required input removed, undeclared input, all declared names in upper/random case, declared / undeclared outputs} and every outdated spec, enumerated completely through the real Linter. Local callees: generated action.yml / workflow_call interfaces (required x default, typed inputs, secrets, outputs) written to a scratch repository, call sites with random subsets, undeclared extras, letter-case variants, typed literal, single-expression and multi-expression template values (calls containing a template with >= 2 expressions are linted 8 times with fresh Linters per derivation mode and must give the same diagnostics each time), secrets mapping / inherit, steps.<id>.outputs.* and needs.<job>.outputs.* references, each wrapped into one of the expression shapes of c14_shapes.go (direct, parenthesised, ==/!= operand, function argument, either operand of && and ||, each position of a && b || c, under !, inside index brackets) and written in a run template, an env template, an if template or a bare if condition; reusable workflows are resolved both from the file and from the registered AST. Non-trivial = a distinct case in which the reference expects at least one report (or a dynamic-outputs / inherit exemption applies)."
+	r.Rule = "bundled data set: every spec of actionlint.PopularActions x {required only, each required input removed, undeclared input, all declared names in upper/random case, declared / undeclared outputs} and every outdated spec, enumerated completely through the real Linter. Local callees: generated action.yml / workflow_call interfaces (required x default, typed inputs, secrets, outputs) written to a scratch repository, call sites with random subsets, undeclared extras, letter-case variants, typed literal, single-expression and multi-expression template values (calls containing a template with >= 2 expressions are linted 8 times with fresh Linters per derivation mode and must give the same diagnostics each time), secrets mapping / inherit, steps.<id>.outputs.* and needs.<job>.outputs.* references, each wrapped into one of the expression shapes of c14_shapes.go (direct, parenthesised, ==/!= operand, function argument, either operand of && and ||, each position of a && b || c, under !, inside index brackets) and written in a run template, an env template, an if template or a bare if condition; reusable workflows are resolved both from the file and from the registered AST; the jobs of the caller are written in a seeded order (1-3 dependant jobs before, between or after the 1-4 calling jobs, several callers of one callee), the verdict must not depend on it. Non-trivial = a distinct case in which the reference expects at least one report (or a dynamic-outputs / inherit exemption applies)."
 	r.Assume("diagnostics are identified by kind and message shape (regular expressions in c14.go); a diagnostic of a generated call site that matches none of them is itself reported")
 	r.Assume("outdated specs have no declared interface: exactly the 'too old' diagnostic and no input/output report is expected")
 	r.Assume("local callees are well-formed: generated action.yml files are valid by construction, generated reusable workflows must lint clean on their own (cases whose callee does not are skipped and counted)")
@@ -579,6 +579,20 @@ func runC14(r *Run) {
 		}
 	}
 	c14ShapeFloors(r)
+	for _, oc := range []string{"after-caller", "before-caller-callee-not-yet-cached", "before-caller-callee-cached-by-earlier-caller"} {
+		for _, mode := range []string{"file", "ast"} {
+			for _, d := range []string{"declared", "undeclared"} {
+				if !r.SetHas("order_cells", oc+"|"+mode+"|"+d) {
+					r.Inconclusive("coverage floor not met: no " + d + " needs.<job>.outputs reference with job order " + oc + " in derivation mode " + mode)
+				}
+			}
+		}
+	}
+	for _, l := range []string{"callers-first", "dependants-first", "interleaved"} {
+		if !r.SetHas("job_layouts", l) {
+			r.Inconclusive("coverage floor not met: job layout " + l + " never generated")
+		}
+	}
 	if gen, bad := r.Counter("workflow_callees_generated"), r.Counter("workflow_callees_not_clean"); gen == 0 || bad*10 > gen {
 		r.Inconclusive(fmt.Sprintf("too many generated reusable workflows do not lint clean on their own: %d of %d", bad, gen))
 	}
